@@ -178,7 +178,92 @@ def clause2_timers(ctx, P, cg):
     ctx.ob("C07.2 R-OWN", td, "destroy-removes-then-closes", names == ["icall", "socket_close"], "cjet_timer_destroy must remove from the loop, then close (found %s)" % names)
     if n < 1:
         raise AnalysisBroken("no cjet_timer_init call site")
+    # the converse: in a function that initialises a timer, that timer is destroyed only on paths where the initialisation has
+    # happened and succeeded (destroy closes the descriptor and unregisters it: on a never-initialised timer these are stray numbers)
+    for f in P.own_functions():
+        inits = f.calls("cjet_timer_init")
+        if not inits:
+            continue
+        keys = {P.term(f, c.a[0]): c for c in inits}
+        bad = None
+        nd = 0
+        for v in Q.path_views(ctx, P, f):
+            done = set()
+            for k, i in v.insts():
+                if i.op != "call" or not i.callee:
+                    continue
+                nm = P.srcname_of(i.callee)
+                if nm == "cjet_timer_init":
+                    c = i
+                    failed = v.has_atom(lambda a, p, c=c: a[0] == "cmp" and a[2][0] == "call" and a[2][3] == c.id and a[3] == ("const", 0) and
+                                        (a[1] if p else Q.negate_pred(a[1])) in ("slt", "ne"))
+                    if not failed:
+                        done.add(P.term(f, i.a[0]))
+                elif nm == "cjet_timer_destroy" and P.term(f, i.a[0]) in keys:
+                    nd += 1
+                    if P.term(f, i.a[0]) not in done:
+                        bad = (v, i)
+        ctx.ob("C07.2 R-TYPESTATE", f, "timer-destroyed-only-after-init", bad is None,
+               "%s destroys the timer at %s on a path on which cjet_timer_init() for it has not (successfully) run: epoll_ctl(DEL) and "
+               "close() are applied to whatever the uninitialised memory holds - a descriptor the request does not own" %
+               (f.srcname, bad[1].loc if bad else ""), witness=bad[0].witness() if bad else None)
     c03.clause2_siblings(ctx, P, cg)
+
+
+CLOSERS = ("close", "socket_close")
+
+
+def clause11_descriptors_closed_once(ctx, P, cg):
+    """(a) close() is never retried: on Linux the descriptor is gone when close() returns, whatever it returns (EINTR included), so a
+    close of the SAME descriptor inside a loop closes a number the daemon no longer owns (and that another connection may have got);
+    (b) the listening sockets belong to the functions that created them: start_server() never closes the socket of the event it is
+    given, and every caller closes it when start_server() fails"""
+    n = 0
+    bad = None
+    for f in P.own_functions():
+        loops = f.loops()
+        for c in f.calls(CLOSERS):
+            n += 1
+            for h, body in loops.items():
+                if c.block not in body:
+                    continue
+                t = P.term(f, c.a[0])
+                varies = Q.mentions(t, lambda x: x[0] == "load" or (x[0] == "phi" and f.insts[x[1]].block in body) or
+                                    (x[0] == "call" and x[3] in f.insts and f.insts[x[3]].block in body))
+                if not varies and bad is None:
+                    bad = (f, c)
+    ctx.ob("C07.4 R-LOOP", "own-code", "close-is-not-retried", bad is None and n >= 8,
+           ("%s() closes the same descriptor again inside a loop at %s: after the first close() the number is free (even when close "
+            "reported EINTR) and may already belong to a new connection" % (bad[0].srcname, bad[1].loc)) if bad else
+           "%d close sites, none repeats on the same descriptor" % n)
+    ss = P.fn("linux_io.c:start_server")
+    # does start_server close on its failure paths: never / always / sometimes
+    fails = [v for v in Q.path_views(ctx, P, ss) if (v.ret_const() or 0) < 0]
+    closing = [v for v in fails if any(True for _ in v.calls(CLOSERS))]
+    callee = "never" if not closing else ("always" if len(closing) == len(fails) else "sometimes")
+    sites = P.callers_of(ss)
+    closes = {}
+    for c in sites:
+        f = c.fn
+        res = set()
+        for v in Q.path_views(ctx, P, f):
+            if not v.has_atom(lambda a, p, c=c: a[0] == "cmp" and a[2][0] == "call" and a[2][3] == c.id and a[3] == ("const", 0) and
+                              (a[1] if p else Q.negate_pred(a[1])) in ("slt", "ne")):
+                continue
+            pos = [k for k, i in v.insts() if i.id == c.id]
+            res.add(any(k > pos[0] for k, i in v.calls(CLOSERS)))
+        closes[c.id] = res
+    ctx.ob("C07.4 R-WHO", ss, "listen-socket:callee-consistent", callee != "sometimes",
+           "start_server() closes the listening socket on some of its failure exits and not on others")
+    for c in sites:
+        res = closes[c.id]
+        want = {True} if callee == "never" else {False}
+        ctx.ob("C07.4 R-WHO", c.fn, Q.ordinal_site(c.fn, c, P) + ":listen-socket-closed-exactly-once", res == want,
+               ("after start_server() failed at %s, %s %s the listening socket while start_server() itself %s closes it on failure: the "
+                "descriptor is %s" % (c.loc, c.fn.srcname, "closes" if True in res else "does not close", callee,
+                                      "closed twice" if (True in res and callee != "never") else "left open")))
+    if len(sites) < 5:
+        raise AnalysisBroken("start_server call sites: %d" % len(sites))
 
 
 def clause3_overwrite(ctx, P, cg, own):
@@ -571,3 +656,4 @@ def run(ctx):
         clause8_fetch_unsubscribed(ctx, P, cg, own)
         clause9_hooks_first(ctx, P, cg)
         clause10_failure_exits_agree(ctx, P, cg, own)
+        clause11_descriptors_closed_once(ctx, P, cg)
